@@ -33,5 +33,5 @@ def body(ops, stats):
 
 def streams(tier, avoid):
     return [Stream("histories", body, machine=M.make_machine({"C15"}, tier),
-                   n={"quick": 150, "thorough": 1200}, steps={"quick": 25, "thorough": 40},
+                   n={"quick": 150, "thorough": 400}, steps={"quick": 25, "thorough": 40},
                    reduce=M.reduce_ops, shrink=(tier == "thorough"))]
